@@ -185,7 +185,7 @@ func (lc *lockCtx) heldAt(fn *ssa.Function, at ssa.Instruction, mu string, depth
 	if pi < 0 {
 		return lockNone
 	}
-	key := fn.String() + "|" + mu
+	key := an.FuncFullName(fn) + "|" + mu
 	if m, ok := lc.memo[key]; ok {
 		return m
 	}
@@ -847,28 +847,98 @@ func runEvtImmut(c *core.Ctx) {
 // (CHA quick, VTA thorough), including closures passed as values.
 func moduleReach(c *core.Ctx, root *ssa.Function) []*ssa.Function {
 	cg := c.P.CallGraph(c.Thorough)
-	seen := map[*ssa.Function]bool{}
+	// Function-typed parameters are followed per call site: inside a higher-order helper
+	// (`anyOf(elems, pred)`) a call of pred goes to what *this* caller passed, not to every
+	// function any caller passes. Everything else follows the call graph.
+	type bindings map[*ssa.Parameter][]*ssa.Function
+	keyOf := func(f *ssa.Function, b bindings) string {
+		var ks []string
+		for p, fs := range b {
+			k := p.Name() + "="
+			for _, g := range fs {
+				k += g.String() + ","
+			}
+			ks = append(ks, k)
+		}
+		sort.Strings(ks)
+		return f.String() + "|" + strings.Join(ks, ";")
+	}
+	resolve := func(v ssa.Value, b bindings) ([]*ssa.Function, bool) {
+		v = an.Unwrap(v)
+		if fv := funcValue(v); fv != nil {
+			return []*ssa.Function{fv}, true
+		}
+		v = an.LoadedValue(resolveFree(v))
+		if fv := funcValue(v); fv != nil {
+			return []*ssa.Function{fv}, true
+		}
+		if p, ok := v.(*ssa.Parameter); ok {
+			fs, ok := b[p]
+			return fs, ok
+		}
+		return nil, false
+	}
+	seen := map[string]bool{}
+	listed := map[*ssa.Function]bool{}
 	var order []*ssa.Function
-	var visit func(f *ssa.Function)
-	visit = func(f *ssa.Function) {
-		if f == nil || seen[f] || !c.P.InModule(f) {
+	var visit func(f *ssa.Function, b bindings)
+	visit = func(f *ssa.Function, b bindings) {
+		if f == nil || !c.P.InModule(f) {
 			return
 		}
-		seen[f] = true
-		order = append(order, f)
+		k := keyOf(f, b)
+		if seen[k] {
+			return
+		}
+		seen[k] = true
+		if !listed[f] {
+			listed[f] = true
+			order = append(order, f)
+		}
+		site := map[ssa.CallInstruction][]*ssa.Function{}
 		if n := cg.Nodes[f]; n != nil {
 			for _, e := range n.Out {
-				visit(e.Callee.Func)
+				site[e.Site] = append(site[e.Site], e.Callee.Func)
 			}
 		}
-		// closures made here are called by callees (Loop(func…))
 		an.Instrs(f, func(in ssa.Instruction) {
+			// closures made here are called by callees (Loop(func…)); they see f's bindings
 			if mc, ok := in.(*ssa.MakeClosure); ok {
-				visit(mc.Fn.(*ssa.Function))
+				visit(mc.Fn.(*ssa.Function), b)
+			}
+			ci, ok := in.(ssa.CallInstruction)
+			if !ok {
+				return
+			}
+			cc := ci.Common()
+			var targets []*ssa.Function
+			if sc := an.StaticCallee(cc); sc != nil {
+				targets = []*ssa.Function{sc}
+			} else if fs, ok := resolve(cc.Value, b); ok && !cc.IsInvoke() {
+				targets = fs
+			} else {
+				targets = site[ci]
+			}
+			for _, g := range targets {
+				if g == nil {
+					continue
+				}
+				nb := bindings{}
+				if !cc.IsInvoke() && len(g.Params) == len(cc.Args) {
+					for i, a := range cc.Args {
+						if _, isFn := g.Params[i].Type().Underlying().(*types.Signature); !isFn {
+							continue
+						}
+						if fs, ok := resolve(a, b); ok {
+							nb[g.Params[i]] = fs
+						}
+					}
+				}
+				visit(g, nb)
 			}
 		})
 	}
-	visit(root)
+	visit(root, bindings{})
 	return order
 }
 
